@@ -1,4 +1,5 @@
 import typing as t
+import copy
 from .models import (
     BaseJSONEncryption,
     GeneralJSONEncryption,
@@ -29,7 +30,8 @@ def represent_general_json(obj: GeneralJSONEncryption) -> GeneralJSONSerializati
     for recipient in obj.recipients:
         item: JSONRecipientDict = {}
         if recipient.header:
-            item["header"] = recipient.header
+            # a copy: the serialization must not change when the object is used again
+            item["header"] = copy.deepcopy(recipient.header)
         if recipient.encrypted_key:
             item["encrypted_key"] = to_str(urlsafe_b64encode(recipient.encrypted_key))
         recipients.append(item)
@@ -42,7 +44,7 @@ def represent_flattened_json(obj: FlattenedJSONEncryption) -> FlattenedJSONSeria
     recipient = obj.recipients[0]
     assert recipient is not None
     if recipient.header:
-        data["header"] = recipient.header
+        data["header"] = copy.deepcopy(recipient.header)
     if recipient.encrypted_key:
         data["encrypted_key"] = to_str(urlsafe_b64encode(recipient.encrypted_key))
     return data  # type: ignore[no-any-return]
@@ -59,7 +61,7 @@ def __represent_json_serialization(obj: BaseJSONEncryption):  # type: ignore[no-
         data["aad"] = to_str(urlsafe_b64encode(obj.aad))
 
     if obj.unprotected:
-        data["unprotected"] = obj.unprotected
+        data["unprotected"] = copy.deepcopy(obj.unprotected)
     return data
 
 
